@@ -2,6 +2,7 @@
 from . import common as C
 from .common import Static
 from .. import director as D
+from .. import gen as G
 
 ID = "C07"
 LEVEL = "exploration"
@@ -61,10 +62,49 @@ def gen(rng, tier):
         spec["two_fresh"] = True  # two freshly built projects in one process, each first run with initialize_log_info=False
     if rng.random() < 0.12:
         spec["reload_after"] = True  # ... and the accounting is a property of the logs, also of logs read back from a file
+    if rng.random() < 0.08 and not any(spec.get(k_) for k_ in ("history", "backward", "edit", "remove", "getters_first", "two_fresh", "reload_after")) \
+            and not spec["model"].get("worker_copies") and spec["cfg"].get("unit_time", 1) == 1:
+        # a run made in two parts (cut off at k and saved; restarted from the file with new logs; the second log appended to the
+        # first project with append_project_log_from_simple_json): the stitched cost logs still add up member by member
+        k = rng.randint(1, 8)
+        spec["cfg"]["absence"] = [a for a in spec["cfg"].get("absence", []) if a < k]
+        spec["appended"] = {"k": k, "absence2": G.gen_absence(rng, 10, rng.randint(0, 3))}
     return spec
 
 
+def check_appended(res, spec, exact):
+    """Stitched logs (scenario of c01.check_appended): every team's / workplace's cost log has one entry per step and entry i is the
+    sum of its members' entries; the project's entry is the sum over teams and workplaces.  (organization.cost_list is not part of
+    what the helper stitches and is not judged.)"""
+    from . import c01
+    p = c01.check_appended(C.campaign.Result(), spec)
+    if p is None:
+        return
+    res.count("appended_logs_checked")
+    n = len(p.cost_list)
+    groups = [("team", tm, tm.worker_list) for tm in p.organization.team_list] + [("workplace", wp, wp.facility_list) for wp in p.organization.workplace_list]
+    for kind, g, members in groups:
+        if len(g.cost_list) != n or any(len(r.cost_list) != n for r in members):
+            res.add("appended", "C07.after_append_log.length_mismatch.%s" % kind, "stitched logs: %s %s has %d cost entries, its members %s, the project %d"
+                    % (kind, g.ID, len(g.cost_list), [len(r.cost_list) for r in members], n), None)
+            return
+        for i in range(n):
+            if not close(g.cost_list[i], sum(r.cost_list[i] for r in members), exact):
+                res.add("appended", "C07.after_append_log.sum.%s" % kind, "stitched logs: %s %s cost[%d] = %r, its members' entries %s"
+                        % (kind, g.ID, i, g.cost_list[i], [r.cost_list[i] for r in members]), i)
+                return
+    for i in range(n):
+        if not close(p.cost_list[i], sum(g.cost_list[i] for _, g, _ in groups), exact):
+            res.add("appended", "C07.after_append_log.sum.project", "stitched logs: project cost[%d] = %r, teams and workplaces %s"
+                    % (i, p.cost_list[i], [g.cost_list[i] for _, g, _ in groups]), i)
+            return
+
+
 def extra_candidates(spec):
+    if spec.get("appended") is not None:
+        c = dict(spec)
+        c.pop("appended")
+        yield c
     if spec.get("history") is not None:
         c = dict(spec)
         c.pop("history")
@@ -258,5 +298,7 @@ def run(spec):
             if len(g.cost_list) != len(tr.project.cost_list) or any(len(r.cost_list) != len(g.cost_list) for r in members):
                 res.add("len", "C07.length_mismatch.%s" % kind, "%s %s has %d cost entries, its members %s, the project %d"
                         % (kind, g.ID, len(g.cost_list), [len(r.cost_list) for r in members], len(tr.project.cost_list)), None)
+    if spec.get("appended") is not None and tr.out.ok:
+        check_appended(res, spec, False)
     res.nontrivial = tot > 0 and n >= 2
     return C.finish(res, tr)
